@@ -63,7 +63,7 @@ def run(ctx, rep):
 
     rep.guarded("R03-ARITY", ar)
     rep.guarded("R03-CASECONST", lambda: r_caseconst(sh, rep))
-    rep.rule("R03-DEPTH", "read-back (with_env) passes the binder depth to every recursive call: unchanged, +1 under Lambda", floor=8)
+    rep.rule("R03-DEPTH", "read-back (with_env) passes the binder depth to every recursive call: unchanged, +1 under Lambda; value_as_term enters at its own binder count", floor=10)
     rep.rule("R03-PUSH", "BuiltinRuntime::push appends the argument and cannot fail", floor=1)
     rep.guarded("R03-DEPTH", lambda: r_depth(sh, rep))
     rep.guarded("R03-PUSH", lambda: r_push(sh, rep))
@@ -310,6 +310,31 @@ def r_depth(sh, rep):
                 rep.check(a == want, "R03-DEPTH", "with_env#%s#depth-arg#%d" % (v, n), sh.loc(DIS, c), "the recursive call in the %s arm passes `%s` as binder depth, expected `%s`: variables under this sub-term are looked up %s binders off" % (v, a, want, "some"), sample={"arm": v, "passed": a})
     if n < 8:
         rep.bad("R03-DEPTH", "with_env#recursive-calls", sh.loc(DIS, f), "only %d recursive calls found in with_env (anchor)" % n)
+    # entry calls: value_as_term starts the read-back of a closure. The depth it passes must equal the number of Lambda
+    # binders it builds itself around the call (0 when it hands the whole binder term to with_env, 1 when it wraps the
+    # result of with_env(.., body) in Term::Lambda): anything else shifts every captured variable of that closure.
+    g = find_fn(sh.file(DIS), "value_as_term")
+    rep.touched(DIS, "discharge::value_as_term")
+    entries = []
+
+    def visit(node, lambdas):
+        if isinstance(node, dict):
+            if node.get("k") == "Struct" and last(node.get("p", "")) == "Lambda":
+                lambdas += 1
+            if node.get("k") == "Call" and call_name(node) == "with_env" and node.get("args"):
+                entries.append((node, lambdas))
+            for v in node.values():
+                visit(v, lambdas)
+        elif isinstance(node, list):
+            for v in node:
+                visit(v, lambdas)
+
+    visit(g["body"], 0)
+    for i, (c, lambdas) in enumerate(entries):
+        a = sh.nsrc(DIS, c["args"][0])
+        rep.check(a == str(lambdas), "R03-DEPTH", "value_as_term#entry-depth#%d" % i, sh.loc(DIS, c), "value_as_term starts a read-back with binder depth `%s` under %d Lambda binder(s) of its own: every captured variable of the closure is resolved one environment slot off" % (a, lambdas), sample={"passed": a, "own_binders": lambdas})
+    if len(entries) < 2:
+        rep.bad("R03-DEPTH", "value_as_term#entry-calls", sh.loc(DIS, g), "only %d with_env entry calls found in value_as_term (anchor: Delay and Lambda closures)" % len(entries))
 
 
 # ---------------------------------------------------------------------------------------------------------
